@@ -61,7 +61,8 @@
 //!                        unique key if ORDER BY is present (otherwise the engine's own order, which is deterministic), then
 //!                        `.skip(m).take(n)`; the engine state is unchanged.  Plus plain `SELECT * FROM t` with the same grid
 //!                        (4 ORDER BY shapes) through `execute_parsed`, and through `execute` for [WHERE] [LIMIT] (all its grammar has).
-//! * C15.text.equiv.join_where / .order_nulls / .legacy_page — same machinery, clauses that the CURRENT tree violates (kept apart so
+//! * C15.text.equiv.join_where / .order_nulls / .legacy_page — same machinery, clauses that the pinned tree violated (repaired by
+//!                        fix: commits; legacy_page: an ORDER BY, which the legacy grammar lacks, may be refused but never answered differently) (kept apart so
 //!                        that the grid above stays green): AND / OR / NOT / IS NULL in the WHERE clause of a join (SQL three-valued
 //!                        logic on the missing side of outer joins); explicit NULLS FIRST / LAST with ASC and DESC on a nullable
 //!                        column and on the missing side of a LEFT JOIN; OFFSET / ORDER BY through the legacy `execute` entry point.
@@ -1415,11 +1416,17 @@ mod page {
             Ok(Err(e)) => Err(format!("ERR {e}")),
         };
         let after = super::equiv::state_img(a);
-        let same = match (&got, &bt.expected) {
+        // The legacy `execute` grammar has no ORDER BY: refusing such a statement (an error, state untouched) is not a
+        // different answer.  What the property excludes is a result that differs from the direct call.
+        let refused_outside_grammar = entry == "execute" && case["order"].as_u64().unwrap_or(0) != 0 && matches!(&got, Err(g) if g.starts_with("ERR "));
+        let same = refused_outside_grammar || match (&got, &bt.expected) {
             (Ok(g), Ok(x)) => g == x,
             (Err(g), Err(x)) => g == x,
             _ => false,
         };
+        if refused_outside_grammar && before == after && after == super::equiv::state_img(b) {
+            return Ok(format!("{entry}({:?}): refused ({}), ORDER BY is outside the legacy grammar; state unchanged", bt.text, got.as_ref().err().cloned().unwrap_or_default()));
+        }
         if same && before == after && after == super::equiv::state_img(b) {
             return Ok(format!("{entry}({:?}): {} row(s) of {}, same rows in the same order as the direct call, state unchanged", bt.text, bt.expected.as_ref().map_or(0, Vec::len), bt.full_size));
         }
@@ -1496,6 +1503,12 @@ mod page {
         for (order, limit, offset) in [(0, json!(1), json!(1)), (0, Value::Null, json!(1)), (0, json!(2), json!(0)), (1, Value::Null, Value::Null), (2, json!(2), Value::Null)] {
             out.push(("C15.text.equiv.legacy_page", json!({"family": "plain", "where": 0, "order": order, "limit": limit, "offset": offset, "entry": "execute"})));
         }
+        // the whole LIMIT x OFFSET grid (0..=size+1 and absent) through `execute`, unordered
+        for l in 0..=6u64 { for o in 0..=6u64 {
+            let (limit, offset) = (if l == 6 { Value::Null } else { json!(l) }, if o == 6 { Value::Null } else { json!(o) });
+            if (l, o) == (1, 1) || (l, o) == (6, 1) || (l, o) == (2, 0) || (l, o) == (6, 6) { continue; } // listed above / no paging clause
+            out.push(("C15.text.equiv.legacy_page", json!({"family": "plain", "where": 0, "order": 0, "limit": limit, "offset": offset, "entry": "execute"})));
+        } }
         Ok(out)
     }
 }
